@@ -21,7 +21,12 @@ impl std::fmt::Debug for Utc {
 
 impl std::fmt::Display for Utc {
     fn fmt(&self, f: &mut std::fmt::Formatter) -> std::fmt::Result {
-        (time::OffsetDateTime::UNIX_EPOCH + self.0).fmt(f)
+        match time::OffsetDateTime::UNIX_EPOCH.checked_add(self.0) {
+            Some(t) => t.fmt(f),
+            // Outside of the range of dates that can be represented,
+            // e.g. an absurd timestamp received from a peer.
+            None => write!(f, "UNIX_EPOCH + {:?}", self.0),
+        }
     }
 }
 
